@@ -22,7 +22,7 @@ REQUIRED = ["solve.ok"]
 ASSUMPTIONS = ["tol(.) = 1e-6*T_max(s) + eps per presentation (exact oracle); pairs whose T is unavailable contribute only flag and separated-state strategy comparisons",
                "strategy differences that consist only of exact ties whose reported floats round to different cells are attributed to the open C04 finding (tie-split-by-convergence), as are their downstream reward differences"]
 TIMEOUT = 1800
-TABLE = [("G-ACY", 250), ("G-CYC", 300), ("G-SLOW", 60), ("G-DEAD", 350), ("G-TIE", 100), ("G-TIEC", 100), ("G-LEX", 120), ("G-TINY", 40), ("G-TINYB", 100), ("G-INIT0F", 30), ("G-HALF", 40), ("G-LATE", 40), ("G-TINY", 60)]
+TABLE = [("G-ACY", 250), ("G-CYC", 300), ("G-SLOW", 60), ("G-DEAD", 350), ("G-TIE", 100), ("G-TIEC", 100), ("G-LEX", 120), ("G-TINY", 40), ("G-TINYB", 100), ("G-INIT0F", 30), ("G-HALF", 40), ("G-LATE", 40), ("G-TINY", 60), ("G-CORR", 120), ("G-DIGIT", 150), ("G-GAP", 60)]
 
 
 def make_transform(rng, gd, kind):
@@ -40,7 +40,10 @@ def make_transform(rng, gd, kind):
         perm, shuffle, ren = list(range(n)), None, dict(zip(srt, srt[::-1]))
     elif kind == "empty_label":
         # "" is a legal action name; renaming one action to it must change nothing else
-        perm, shuffle, ren = list(range(n)), None, ({rng.choice(labs): ""} if labs else {})
+        perm, shuffle, ren = list(range(n)), None, ({rng.choice(labs): ""} if labs and "" not in labs else {})      # renamings are injective
+    elif kind == "digit_labels":
+        # names made of digits and one letter, aimed so that "<state index><name>" (or the reverse) is ambiguous between two states
+        perm, shuffle, ren = list(range(n)), None, games.digit_renaming(rng, gd, analysis.Analysis(gd))
     else:
         perm = games.random_perm(rng, n)
         shuffle = rng.choice([None, "random", "random", "reverse"])
@@ -90,7 +93,7 @@ def compare(gd, gd2, tf, out, out2, prune, an):
     if s1 != "ok":
         return problems, known, stats
     r1, r2 = out.result, out2.result
-    if tf["kind"] in ("rotate_labels", "reverse_alphabet", "empty_label") and not tf["shuffle"] and tf["perm"] == list(range(n)):
+    if tf["kind"] in ("rotate_labels", "reverse_alphabet", "empty_label", "digit_labels") and not tf["shuffle"] and tf["perm"] == list(range(n)):
         # renaming only: numbering and transition order are untouched, so the computation must be the same one step for
         # step - every numeric output identical (==), iteration counts included; strategies equal up to the renaming
         stats["rename_only_pairs"] = 1
@@ -335,7 +338,7 @@ def decide(gd, idx, cls, tier, rng, tfs=None):
         return res
     if tfs is None:
         k = 4 if tier == "quick" else 12
-        tfs = [make_transform(rng, gd, kd) for kd in ["reverse_numbering", "reverse_lists", "rotate_labels", "reverse_alphabet", "empty_label"] + ["random"] * k]
+        tfs = [make_transform(rng, gd, kd) for kd in ["reverse_numbering", "reverse_lists", "rotate_labels", "reverse_alphabet", "empty_label", "digit_labels"] + ["random"] * k]
     base = {p: monitors.observed_solve(games.to_solver(gd), p, limit) for p in (True, False)}
     problems, known = [], []
     for tf in tfs:
